@@ -16,8 +16,14 @@ EXTENDS Integers, Sequences, SplineLattice
 Term(cf, s, kind, r) == <<cf, s, kind, r>>
 Relation(c, s, terms) == [c |-> c, i |-> s, t |-> terms]
 
-RECURSIVE Flatten(_)
-Flatten(ss) == IF ss = <<>> THEN <<>> ELSE Head(ss) \o Flatten(Tail(ss))
+\* concatenation of a sequence of sequences; divide and conquer keeps the evaluation depth logarithmic
+\* (grids with 200 knots)
+RECURSIVE FlattenRange(_, _, _)
+FlattenRange(ss, lo, hi) ==
+  IF lo > hi THEN <<>>
+  ELSE IF lo = hi THEN ss[lo]
+  ELSE LET mid == (lo + hi) \div 2 IN FlattenRange(ss, lo, mid) \o FlattenRange(ss, mid + 1, hi)
+Flatten(ss) == FlattenRange(ss, 1, Len(ss))
 SeqOf(f, lo, hi) == [j \in 1..(hi - lo + 1) |-> f[lo + j - 1]]
 
 DiffCoef(deg) == IF deg = 1 THEN <<1, -2, 1>>
